@@ -922,6 +922,14 @@ func (r *resolver) expandAugment(y *Augment, parent Meta) error {
 	targetChoice, targetIsChoice := target.(*Choice)
 	for _, orig := range y.DataDefinitions() {
 		var err error
+		if hasIf, valid := orig.(HasIfFeatures); valid {
+			// not every body was resolved before it gets here (augment of a uses)
+			if on, err := checkFeature(hasIf); err != nil {
+				return err
+			} else if !on {
+				continue
+			}
+		}
 		d := orig.(cloneable).clone(target).(Definition)
 		if hw, hasWhen := d.(HasWhen); hasWhen && y.when != nil {
 			// the when of the augment is about every node it adds
